@@ -965,6 +965,7 @@ def gen_masses(rng, lo=0, hi=4):
 
 GETTERS = ['massget', 'massget', 'massget', 'symget', 'symget', 'snatypes', 'snatypes', 'satypes', 'scomp', 'sstr']
 OBSERVERS = ('symget', 'massget', 'snatypes', 'satypes', 'scomp', 'sstr')
+SEARCH_ONLY = ('df', 'sdf', 'ainfo', 'sinfo', 'spkeys')
 
 
 def raw_natypes(a):
@@ -1068,6 +1069,9 @@ def with_forms(rng, op, p=0.3):
     for field in ('symbols', 'masses'):
         v = op.get(field)
         if v is not None and rng.random() < p:
+            if len(v) > 1 and v[0] is not None and rng.random() < 0.4 and (field == 'masses' or op['op'] != 'mksys'):
+                v = op[field] = v[:1]          # one entry, so that it can be given bare (fewer masses stay valid;
+                #                                fewer symbols of a constructor call may not: the masses count against them)
             op[field + '_as'] = 'bare' if (len(v) == 1 and v[0] is not None and rng.random() < 0.7) else 'tuple'
     if op.get('pbc') is not None and rng.random() < p:
         op['pbc_as'] = rng.choice(['tuple', 'int', 'np'])
@@ -1473,6 +1477,8 @@ def correspond(ctx):
     # the accessor matrix first (fixed histories, a few operations each)
     nmat = 0
     for name, ops in matrix_histories(rng):
+        if any(op['op'] in SEARCH_ONLY or op.get('aid') == 'both' for op in ops):
+            continue        # DataFrames, len/str and the index+a_id refusal are not operations of the model
         nmat += 1
         e = run_fixed(drv, ops, stats)
         for op in ops:
@@ -2723,6 +2729,149 @@ def matrix_index_forms(n):
     return forms
 
 
+def matrix_extra(rng, base, mksys, box, donor):
+    """deterministic versions of what the random histories sample: observation order after a growth of the atom types,
+    read -> write -> read on one object, hostile atom types through every write path, extensions by nothing, every
+    refusal reason through several accessors."""
+    n = 5
+    out = []
+    msys = dict(mksys, masses=[26.5, 63.5, 58.75])
+    # ---- the number of atom types grows THROUGH THE ATOMS, then ONE observer reads first, then all the others
+    grows = [
+        ('spset-int', [{'op': 'spset', 's': 's1', 'key': 'atype', 'ix': ['I', -1], 'val': lit('i', [], [5]), 'scale': False}]),
+        ('pset-list', [{'op': 'pset', 'o': 'a0', 'key': 'atype', 'ix': ['L', [0, 2]], 'val': lit('i', [], [4])}]),
+        ('pset-mask', [{'op': 'pset', 'o': 'a0', 'key': 'atype', 'ix': ['K', [False, True, False, False, True]],
+                        'val': lit('i', [2], [4, 5])}]),
+        ('patype-relabel', [{'op': 'patype', 'o': 'a0', 'key': 'atype', 'val': lit('i', [], [6]), 't': 2}]),
+        ('patype-table', [{'op': 'patype', 'o': 'a0', 'key': 'atype', 'val': lit('i', [3], [2, 4, 1]), 't': None}]),
+        ('setv-view', [{'op': 'setv', 'o': 'a0', 'key': 'atype', 'val': lit('i', [n], [1, 2, 5, 3, 2]), 'via': 'view'}]),
+        ('setv-attr', [{'op': 'setv', 'o': 'a0', 'key': 'atype', 'val': lit('i', [n], [4, 2, 1, 3, 2]), 'via': 'attr'}]),
+        ('seti', [dict(donor(1, ['p3', 'p1', 'p0', 'p2']), atype=lit('i', [1], [5])),
+                  {'op': 'seti', 'o': 'a0', 'ix': ['I', 1], 'src': 'a2'}]),
+        ('ixset', [dict(donor(2, ['p0', 'p1', 'p2', 'p3']), atype=lit('i', [2], [4, 6])),
+                   {'op': 'ixset', 's': 's1', 'ix': ['S', 1, 3, None], 'src': ['a', 'a2']}]),
+    ]
+    firsts = [[{'op': g, 's': 's1'}] for g in OBSERVERS] + \
+        [[{'op': 'massset', 's': 's1', 'masses': [1.5, 2.5, 3.5, 4.5]}, {'op': 'massget', 's': 's1'}],
+         [{'op': 'sdcopy', 's': 's1', 'id': 7}, {'op': 'massget', 's': 's7'}],
+         [{'op': 'ixget', 's': 's1', 'ix': ['S', None, None, None], 'id': 7}, {'op': 'massget', 's': 's7'}, {'op': 'symget', 's': 's7'}]]
+    for gname, gops in grows:
+        for f in firsts:
+            rest = [{'op': g, 's': 's1'} for g in OBSERVERS if g != f[0]['op']]
+            rng.shuffle(rest)
+            out.append((f"grow:{gname}:{f[0]['op']}", [base, msys] + gops + f + rest))
+    # symbols longer than the atoms use types; masses of that length (constructor order: symbols before masses)
+    out.append(('mksys:long-symbols', [base, dict(mksys, symbols=['Al', 'Cu', 'Ni', 'Fe', 'X'], masses=[1.5, 2.5, 3.5, 4.5, 5.5]),
+                                       {'op': 'massget', 's': 's1'}, {'op': 'snatypes', 's': 's1'}, {'op': 'satypes', 's': 's1'}]))
+    out.append(('massset:fewer', [base, msys, {'op': 'massset', 's': 's1', 'masses': [9.25]}, {'op': 'massget', 's': 's1'},
+                                  {'op': 'massset', 's': 's1', 'masses': []}, {'op': 'massget', 's': 's1'}]))
+    # ---- read -> write -> the same read again (memoised / cached reads)
+    reads = [('pget', {'op': 'pget', 'o': 'a0', 'key': 'p0', 'ix': None}), ('pget-ix', {'op': 'pget', 'o': 'a0', 'key': 'p1', 'ix': ['S', 1, 4, None]}),
+             ('spget-scaled', {'op': 'spget', 's': 's1', 'key': 'p1', 'ix': None, 'scale': True}),
+             ('natypes', {'op': 'natypes', 'o': 'a0'}), ('df', {'op': 'df', 'o': 'a0'}), ('sdf', {'op': 'sdf', 's': 's1', 'scale': True}),
+             ('sdf-keys', {'op': 'sdf', 's': 's1', 'scale': ['p1', 'pos']}), ('ainfo', {'op': 'ainfo', 'o': 'a0'}),
+             ('sinfo', {'op': 'sinfo', 's': 's1'}), ('spkeys', {'op': 'spkeys', 's': 's1'})]
+    writes = [('pset', [{'op': 'pset', 'o': 'a0', 'key': 'p0', 'ix': ['I', 2], 'val': lit('i', [], [41])},
+                        {'op': 'pset', 'o': 'a0', 'key': 'p1', 'ix': ['L', [1, 3]], 'val': lit('f', [3], [0.5, -1.5, 2.0])},
+                        {'op': 'pset', 'o': 'a0', 'key': 'atype', 'ix': ['I', 0], 'val': lit('i', [], [4])}]),
+              ('seti', [donor(2, ['p3', 'p1', 'p0', 'p2']), {'op': 'seti', 'o': 'a0', 'ix': ['S', 1, 3, None], 'src': 'a2'}]),
+              ('setv', [{'op': 'setv', 'o': 'a0', 'key': 'p0', 'val': lit('i', [], [13]), 'via': 'attr'},
+                        {'op': 'setv', 'o': 'a0', 'key': 'p1', 'val': gen_lit(rng, 'f', [n, 3]), 'via': 'view'},
+                        {'op': 'setv', 'o': 'a0', 'key': 'p4', 'val': gen_lit(rng, 'f', [n]), 'via': 'view'}]),
+              ('spset-scaled', [{'op': 'spset', 's': 's1', 'key': 'p1', 'ix': ['S', None, None, 2],
+                                 'val': gen_lit(rng, 'f', [3, 3]), 'scale': True}])]
+    for rname, r in reads:
+        for wname, w in writes:
+            out.append((f'read-write-read:{rname}:{wname}', [base, mksys, dict(r)] + w + [dict(r)]))
+    # ---- atom types < 1 through every write path: refused (or at least never stored)
+    for bad in (0, -1, 0.5):
+        dt = 'f' if isinstance(bad, float) else 'i'
+        hostile = [
+            {'op': 'pset', 'o': 'a0', 'key': 'atype', 'ix': ['I', 1], 'val': lit(dt, [], [bad])},
+            {'op': 'pset', 'o': 'a0', 'key': 'atype', 'ix': ['S', 1, 4, None], 'val': lit(dt, [3], [1, bad, 2])},
+            {'op': 'pset', 'o': 'a0', 'key': 'atype', 'ix': ['L', [4, 0]], 'val': lit(dt, [], [bad])},
+            {'op': 'pset', 'o': 'a0', 'key': 'atype', 'ix': ['K', [True, False, False, True, False]], 'val': lit(dt, [2], [bad, 1])},
+            {'op': 'pset', 'o': 'a0', 'key': 'atype', 'ix': None, 'val': lit(dt, [n], [1, 2, bad, 1, 1])},
+            {'op': 'setv', 'o': 'a0', 'key': 'atype', 'val': lit(dt, [n], [1, 2, 3, bad, 1]), 'via': 'view'},
+            {'op': 'setv', 'o': 'a0', 'key': 'atype', 'val': lit(dt, [], [bad]), 'via': 'attr'},
+            {'op': 'patype', 'o': 'a0', 'key': 'atype', 'val': lit(dt, [], [bad]), 't': 2},
+            {'op': 'patype', 'o': 'a0', 'key': 'atype', 'val': lit(dt, [3], [1, bad, 2]), 't': None},
+            {'op': 'spset', 's': 's1', 'key': 'atype', 'ix': ['I', 0], 'val': lit(dt, [], [bad]), 'scale': False},
+        ]
+        for h in hostile:
+            out.append((f"hostile:{h['op']}:{bad}", [base, mksys, dict(h, hostile=True), {'op': 'natypes', 'o': 'a0'}]))
+    for r in (-5, 0):       # box-relative 3-vector landing in three atom types: below 1 in every Cartesian component?
+        cart = o_rtc_row([Fraction(x) for x in box], (r, r, r))
+        if all(c < 1 for c in cart):
+            out.append((f'hostile:spset-scaled:{r}', [base, mksys, {'op': 'spset', 's': 's1', 'key': 'atype', 'ix': ['L', [0, 2, 4]],
+                                                                   'val': lit('i', [3], [r, r, r]), 'scale': True, 'hostile': True},
+                                                     {'op': 'natypes', 'o': 'a0'}]))
+    # ---- extension by nothing returns a NEW object all the same
+    out.append(('extend:nothing', [base, mksys, {'op': 'exti', 'o': 'a0', 'n': 0, 'id': 3},
+                                   {'op': 'geti', 'o': 'a0', 'ix': ['S', 2, 2, None], 'id': 4}, {'op': 'exta', 'o': 'a0', 'src': 'a4', 'id': 5},
+                                   {'op': 'sext', 's': 's1', 'value': ['i', 0], 'scale': False, 'symbols': None, 'id': 6},
+                                   {'op': 'sext', 's': 's1', 'value': ['a', 'a4'], 'scale': True, 'symbols': None, 'id': 7}]))
+    out.append(('pset:new-key', [base, {'op': 'pset', 'o': 'a0', 'key': 'p4', 'ix': None, 'val': gen_lit(rng, 'f', [n, 3])},
+                                 {'op': 'pset', 'o': 'a0', 'key': 'q0', 'ix': None, 'val': lit('s', [n], ['a', 'b', 'Fe', '', 'xyz'], 3)},
+                                 {'op': 'pget', 'o': 'a0', 'key': 'p4', 'ix': None}]))
+    # ---- every refusal reason through several accessors
+    R = []
+    for ix in (['K', [True] * 6], ['K', [True, False, True, False]], ['K', [False, True, True, False, True, True], 'list']):
+        R += [('mask-length', {'op': 'geti', 'o': 'a0', 'ix': ix, 'id': 3}), ('mask-length', {'op': 'pgeta', 'o': 'a0', 'ix': ix, 'id': 3}),
+              ('mask-length', {'op': 'pget', 'o': 'a0', 'key': 'p1', 'ix': ix}),
+              ('mask-length', {'op': 'pset', 'o': 'a0', 'key': 'p0', 'ix': ix, 'val': lit('i', [], [3])}),
+              ('mask-length', {'op': 'spgeta', 's': 's1', 'ix': ix, 'id': 3}),
+              ('mask-length', {'op': 'spgeta', 's': 's1', 'ix': ix, 'id': 3, 'scale': True}),
+              ('mask-length', {'op': 'spget', 's': 's1', 'key': 'pos', 'ix': ix, 'scale': True}),
+              ('mask-length', {'op': 'ixget', 's': 's1', 'ix': ix, 'id': 3})]
+    for ix in (['I', 5], ['I', -6], ['I', 7, 'np'], ['L', [0, 5]], ['L', [-6], 'np']):
+        R += [('out-of-range', {'op': 'pget', 'o': 'a0', 'key': 'p0', 'ix': ix}),
+              ('out-of-range', {'op': 'pset', 'o': 'a0', 'key': 'p1', 'ix': ix, 'val': lit('f', [3], [1.0, 2.0, 3.0])}),
+              ('out-of-range', {'op': 'spget', 's': 's1', 'key': 'pos', 'ix': ix, 'scale': True})]
+        if ix[0] == 'L':
+            R += [('out-of-range', {'op': 'geti', 'o': 'a0', 'ix': ix, 'id': 3}), ('out-of-range', {'op': 'spgeta', 's': 's1', 'ix': ix, 'id': 3, 'scale': True})]
+    z = ['S', None, None, 0]
+    R += [('zero-step', {'op': 'geti', 'o': 'a0', 'ix': z, 'id': 3}), ('zero-step', {'op': 'pget', 'o': 'a0', 'key': 'p0', 'ix': z}),
+          ('zero-step', {'op': 'pset', 'o': 'a0', 'key': 'p0', 'ix': z, 'val': lit('i', [], [1])}),
+          ('zero-step', {'op': 'spgeta', 's': 's1', 'ix': z, 'id': 3, 'scale': True})]
+    for key, cls, shape in (('p4', 'f', [6]), ('p4', 'f', [4, 3]), ('p0', 'i', [6]), ('p0', 'i', [4]), ('p1', 'f', [6, 3]), ('pos', 'f', [2, 3]),
+                            ('atype', 'i', [4]), ('p2', 's', [7])):
+        for via in ('view', 'attr'):
+            R.append(('first-dimension', {'op': 'setv', 'o': 'a0', 'key': key, 'val': gen_lit(rng, cls, shape, key), 'via': via}))
+    for key, cls, shape in (('p1', 'f', [5, 2]), ('p1', 'f', [5, 1, 3]), ('p0', 'i', [5, 1]), ('p0', 'i', [5, 2]), ('pos', 'f', [5, 2]),
+                            ('pos', 'f', [5, 3, 1]), ('p3', 'b', [5, 1]), ('atype', 'i', [5, 1])):
+        R.append(('trailing-shape', {'op': 'setv', 'o': 'a0', 'key': key, 'val': gen_lit(rng, cls, shape, key), 'via': 'view'}))
+    for key, cls, shape in (('p1', 'f', [15]), ('p1', 'f', [3, 5]), ('pos', 'f', [15])):   # right number of cells, wrong first dimension
+        R.append(('first-dimension', {'op': 'setv', 'o': 'a0', 'key': key, 'val': gen_lit(rng, cls, shape, key), 'via': 'view'}))
+    for ix, m in ((['S', 1, 4, None], 3), (['L', [0, 4]], 2), (['K', [True, True, False, True, True]], 4)):
+        for key, cls, shape in (('p1', 'f', [m, 2]), ('p0', 'i', [m, 1]), ('p0', 'i', [m, 2]), ('p1', 'f', [m + 1, 3]), ('p0', 'i', [m + 1])) \
+                + ((('p1', 'f', [3, m]), ('p1', 'f', [3 * m])) if m != 3 else ()):
+            R.append(('trailing-shape', {'op': 'pset', 'o': 'a0', 'key': key, 'ix': ix, 'val': gen_lit(rng, cls, shape, key)}))
+    R += [('missing-key', {'op': 'pget', 'o': 'a0', 'key': 'nokey', 'ix': None}), ('missing-key', {'op': 'pget', 'o': 'a0', 'key': 'nokey', 'ix': ['I', 0]}),
+          ('missing-key', {'op': 'spget', 's': 's1', 'key': 'nokey', 'ix': None}), ('missing-key', {'op': 'spget', 's': 's1', 'key': 'nokey', 'ix': ['S', 0, 2, None], 'scale': True}),
+          ('short-table', {'op': 'patype', 'o': 'a0', 'key': 'p0', 'val': lit('i', [2], [7, 8]), 't': None}),
+          ('short-table', {'op': 'patype', 'o': 'a0', 'key': 'p4', 'val': gen_lit(rng, 'f', [2, 3]), 't': None}),
+          ('absent-type', {'op': 'patype', 'o': 'a0', 'key': 'p0', 'val': lit('i', [], [7]), 't': 0}),
+          ('absent-type', {'op': 'patype', 'o': 'a0', 'key': 'p4', 'val': lit('f', [], [7.5]), 't': 4}),
+          ('absent-type', {'op': 'patype', 'o': 'a0', 'key': 'p1', 'val': lit('f', [3], [1.0, 2.0, 3.0]), 't': -1}),
+          ('too-many-masses', {'op': 'massset', 's': 's1', 'masses': [1.5, 2.5, 3.5, 4.5]}),
+          ('pbc-length', {'op': 'pbcset', 's': 's1', 'pbc': [True, False]}), ('pbc-length', {'op': 'pbcset', 's': 's1', 'pbc': [True] * 4, 'pbc_as': 'np'}),
+          ('scale-int-extend', {'op': 'sext', 's': 's1', 'value': ['i', 1], 'scale': True, 'symbols': None, 'id': 3}),
+          ('negative-extend', {'op': 'exti', 'o': 'a0', 'n': -1, 'id': 3}),
+          ('negative-extend', {'op': 'sext', 's': 's1', 'value': ['i', -2], 'scale': False, 'symbols': None, 'id': 3})]
+    for ix in (['I', 1], ['S', 0, 2, None], ['L', [2]]):
+        R += [('both', {'op': 'pget', 'o': 'a0', 'key': 'p0', 'ix': ix, 'aid': 'both'}), ('both', {'op': 'pgeta', 'o': 'a0', 'ix': ix, 'id': 3, 'aid': 'both'}),
+              ('both', {'op': 'pset', 'o': 'a0', 'key': 'p0', 'ix': ix, 'val': lit('i', [], [3]), 'aid': 'both'}),
+              ('both', {'op': 'spget', 's': 's1', 'key': 'pos', 'ix': ix, 'aid': 'both'}),
+              ('both', {'op': 'spget', 's': 's1', 'key': 'pos', 'ix': ix, 'scale': True, 'aid': 'both'}),
+              ('both', {'op': 'spgeta', 's': 's1', 'ix': ix, 'id': 3, 'scale': True, 'aid': 'both'}),
+              ('both', {'op': 'spset', 's': 's1', 'key': 'p0', 'ix': ix, 'val': lit('i', [], [3]), 'scale': False, 'aid': 'both'}),
+              ('both', {'op': 'spset', 's': 's1', 'key': 'pos', 'ix': ix, 'val': lit('f', [3], [0.5, 0.5, 0.5]), 'scale': True, 'aid': 'both'})]
+    for j, (why, op) in enumerate(R):
+        out.append((f"refuse:{why}:{op['op']}#{j}", [base, mksys, dict(op, refuse=why)]))
+    return out
+
+
 def matrix_histories(rng, refusals=True):
     """short fixed histories [Atoms(5 atoms, int / float-vector / str / bool extras), System on a box that is neither
     the unit cube nor axis-aligned (exact), (donor,) ONE accessor call, read-backs]: the cross product the random
@@ -2834,6 +2983,22 @@ def matrix_histories(rng, refusals=True):
                          {'op': 'pset', 'o': 'a0', 'key': 'p0', 'ix': ['I', 1], 'val': lit('i', [], [77])},
                          {'op': 'spget', 's': 's1', 'key': 'p0', 'ix': None}, {'op': 'pget', 'o': 'a0', 'key': 'pos', 'ix': None}]))
     out.append(('new:safecopy', [dict(base, safecopy=True), {'op': 'pget', 'o': 'a0', 'key': 'p1', 'ix': None}]))
+    # ---- the other spellings of symbols / masses (tuple, ONE bare str / float) and pbc (tuple, 0/1 ints, numpy array)
+    for form in ('bare', 'tuple'):
+        sy = ['Al'] if form == 'bare' else ['Al', 'Cu', 'Ni']
+        ms = [26.5] if form == 'bare' else [26.5, None, 58.75]
+        out.append((f'forms:{form}', [base, dict(mksys, symbols=sy, masses=ms, symbols_as=form, masses_as=form),
+                                      {'op': 'symget', 's': 's1'}, {'op': 'massget', 's': 's1'}, {'op': 'scomp', 's': 's1'},
+                                      {'op': 'symset', 's': 's1', 'symbols': ['Cu'] if form == 'bare' else ['Fe', 'Cu', 'Ni'],
+                                       'symbols_as': form},
+                                      {'op': 'massset', 's': 's1', 'masses': [63.5] if form == 'bare' else [55.75, 63.5],
+                                       'masses_as': form},
+                                      {'op': 'symget', 's': 's1'}, {'op': 'massget', 's': 's1'}, {'op': 'scomp', 's': 's1'}]))
+    for form in ('tuple', 'int', 'np'):
+        out.append((f'forms:pbc:{form}', [base, dict(mksys, pbc=[False, True, False], pbc_as=form),
+                                          {'op': 'pbcset', 's': 's1', 'pbc': [True, False, False], 'pbc_as': form},
+                                          {'op': 'ixget', 's': 's1', 'ix': ['S', 0, 2, None], 'id': 3},
+                                          {'op': 'sext', 's': 's1', 'value': ['i', 1], 'scale': False, 'symbols': None, 'id': 4}]))
     for d_as in ('a', 'i'):
         for scale in (False, True):
             if d_as == 'i' and scale:
@@ -2841,6 +3006,7 @@ def matrix_histories(rng, refusals=True):
             val = ['a', 'a2'] if d_as == 'a' else ['i', 2]
             out.append((f'sext:{d_as}:{scale}', [base, mksys, donor(2, ['p1']),
                                                  {'op': 'sext', 's': 's1', 'value': val, 'scale': scale, 'symbols': None, 'id': 3}]))
+    out += matrix_extra(rng, base, mksys, box, donor)
     return out
 
 
@@ -2907,6 +3073,10 @@ def run_oracle_history(ops_or_gen, rng=None, length=0, ctx=None):
                     ctx.stats.case('oracle:refuse:' + op['refuse'], json.dumps(op, sort_keys=True, default=str))
                 continue
             if rep.startswith('err'):
+                try:        # is the operation well-formed at all (shrinking may have removed what made it so)?
+                    oracle_apply(op, copy.deepcopy(O), copy.deepcopy(OS))
+                except (AssertionError, KeyError, IndexError, ValueError, ZeroDivisionError) as e:
+                    return ops, Violation('oracle-internal', f'not a well-formed operation here: {op}: {e!r}')
                 raise Violation('valid-op-raised:' + op['op'],
                                 f"{op['op']} is a well-formed operation but raised {getattr(W, 'last_exc', rep)}")
             for kind, hname, obj in created:
